@@ -376,10 +376,26 @@ def check_reuse(ctx, v):
             ctx.count("reuse:step-without-activity")
             targets.append((None, 1.0))
         asked = targets + [(None, t) for _, t in previous]
+        # the ActivationEnvironment object is changed in place (the caller moves on to the next beam setting) after the
+        # calculation and before the first question: the answers belong to the calculation that was made
+        bumped = None
+        if (len(formula) + i) % 3 == 0:
+            bumped = (environment.fluence,)
+            environment.fluence = environment.fluence * 64.0
+            ctx.count("reuse:environment-changed-before-first-question")
+        o_bumped = [outcome(reused, t) for _, t in asked] if bumped else None
+        if bumped:
+            environment.fluence = bumped[0]
         if products and A0 > 0 and math.isfinite(float(A0) * 10):
             # a query must not change the sample: ask for a high level first
             outcome(reused, float(A0) * 10)
         for n, (k, target) in enumerate(asked):
+            if o_bumped is not None:
+                o_now = outcome(reused, target)
+                if not same_outcome(o_now, o_bumped[n]):
+                    raise Violation("c15:reuse:environment-object", "%s %s: decay_time(%r) answered %r while the environment "
+                                    "object had been changed in place after the calculation, and %r with it restored"
+                                    % (formula, where, target, o_bumped[n][1:], o_now[1:]), case)
             if n:
                 # every comparison value comes from a sample that was never asked before
                 fresh = E.act.Sample(formula, mass)
